@@ -4,14 +4,34 @@ import os
 from common import cps, uncps, hx, unhx, drv, run_cli
 
 
+TOK_NAMES = ["prog.lst", "PROG.LST", "my.prog.v2.Lst", "dir.lst/inner.lst", "a b.lsT", ".lst"]
+
+
 def lst2bas(ctx, text):
+    """the tokenizing conversion of one listing through the CLI; the name of the listing varies (case of the extension, more
+    dots, a directory whose name ends in .lst, a dot-file), and now and then a second listing is converted by the same command
+    (it must not disturb the first, and must be converted too)"""
     from moto_lst2bas.lst2bas import ListingToBasicCli
     d = ctx.fresh_dir()
-    p = os.path.join(d, "prog.lst")
+    h = len(text) + sum(map(ord, text[:16]))
+    name = TOK_NAMES[h % len(TOK_NAMES)]
+    p = os.path.join(d, name)
+    os.makedirs(os.path.dirname(p), exist_ok=True)
     with open(p, "w", newline="") as f:
         f.write(text)
-    status, _ = run_cli(ListingToBasicCli().run, [p])
-    bas = os.path.join(d, "prog.bas")
+    argv = [p]
+    other = None
+    if h % 5 == 0:
+        other = os.path.join(d, "second.lst")
+        with open(other, "w", newline="") as f:
+            f.write("10 REM SECOND\n")
+        argv = [p, other] if h % 2 else [other, p]
+    status, _ = run_cli(ListingToBasicCli().run, argv)
+    bas = p[:-3] + "bas"
+    if open(p, "rb").read() != text.encode("utf-8"):
+        return "SourceOverwritten", None
+    if other is not None and status == "ok0" and not os.path.exists(other[:-3] + "bas"):
+        return "SecondListingNotConverted", None
     return status, (open(bas, "rb").read() if os.path.exists(bas) else None)
 
 
@@ -36,6 +56,7 @@ def keywords():
 
 def check_program(res, stream, st, case, text, status, bas, clauses):
     """model correspondence + oracles for one listing; returns nothing"""
+    text = text.replace("\r\n", "\n").replace("\r", "\n")     # the listing is read in text mode: CR LF and CR end a line like LF
     lines = text.split("\n")
     if lines and lines[-1] == "":
         lines.pop()
